@@ -58,6 +58,9 @@ type Session struct {
 
 	streamsM sync.Mutex
 	streams  map[uint32]*Stream
+	// timedOut is set (under streamsM) by the inactivity timer once it has decided to close the session;
+	// from then on no stream may be opened or accepted
+	timedOut bool
 	// For accepting new streams
 	acceptCh chan *Stream
 
@@ -159,13 +162,15 @@ func (sesh *Session) OpenStream() (*Stream, error) {
 	sesh.streamsM.Lock()
 	// the session may have been closed since the check above; closeSession closes the streams it finds
 	// in the table under streamsM, so a stream added after that would never be closed
-	if sesh.IsClosed() {
+	if sesh.IsClosed() || sesh.timedOut {
 		sesh.streamsM.Unlock()
 		return nil, ErrBrokenSession
 	}
 	sesh.streams[id] = stream
-	sesh.streamsM.Unlock()
+	// counted before streamsM is released, so that the inactivity timer (which decides under streamsM)
+	// never sees a registered stream as absent
 	sesh.streamCountIncr()
+	sesh.streamsM.Unlock()
 	log.Tracef("stream %v of session %v opened", id, sesh.id)
 	return stream, nil
 }
@@ -247,7 +252,7 @@ func (sesh *Session) recvDataFromRemote(data []byte) error {
 	}
 
 	sesh.streamsM.Lock()
-	if sesh.IsClosed() {
+	if sesh.IsClosed() || sesh.timedOut {
 		sesh.streamsM.Unlock()
 		return ErrBrokenSession
 	}
@@ -263,9 +268,9 @@ func (sesh *Session) recvDataFromRemote(data []byte) error {
 		newStream := makeStream(sesh, frame.StreamID)
 		sesh.streams[frame.StreamID] = newStream
 		sesh.acceptCh <- newStream
-		sesh.streamsM.Unlock()
 		// new stream
 		sesh.streamCountIncr()
+		sesh.streamsM.Unlock()
 		return newStream.recvFrame(frame)
 	}
 }
@@ -349,7 +354,15 @@ func (sesh *Session) IsClosed() bool {
 }
 
 func (sesh *Session) checkTimeout() {
-	if sesh.streamCount() == 0 && !sesh.IsClosed() {
+	// the decision is taken under streamsM, where streams are registered and counted: a stream opened or
+	// accepted concurrently is either seen here (no timeout) or refused (timedOut), never killed by the timer
+	sesh.streamsM.Lock()
+	idle := sesh.streamCount() == 0 && !sesh.IsClosed()
+	if idle {
+		sesh.timedOut = true
+	}
+	sesh.streamsM.Unlock()
+	if idle {
 		sesh.SetTerminalMsg("timeout")
 		sesh.Close()
 	}
